@@ -24,6 +24,11 @@ impl Read for Chunked {
         if buf.is_empty() {
             return Ok(0);
         }
+        // every third call is interrupted by a signal (EINTR): no data is lost, the caller has to retry — which
+        // `read_until`, `read_exact` and `read_to_end` do, and which any hand-written read loop must do as well
+        if self.reads % 3 == 2 && !self.chunks.is_empty() {
+            return Err(std::io::Error::new(std::io::ErrorKind::Interrupted, "interrupted"));
+        }
         match self.chunks.pop_front() {
             None => Ok(0),
             Some(mut c) => {
